@@ -3,6 +3,7 @@ package sw
 import (
 	"fmt"
 	"os"
+	"strconv"
 	"strings"
 
 	"verif/sim/choice"
@@ -18,7 +19,7 @@ var NetFaultKinds = []string{
 
 // DiskAssistedNetKinds are network faults whose author also controls the machine's disk (kept apart from
 // NetFaultKinds so that recorded tapes keep their meaning).
-var DiskAssistedNetKinds = []string{"forge-record+cached-leaf", "negative-record-id"}
+var DiskAssistedNetKinds = []string{"forge-record+cached-leaf", "negative-record-id", "noncanonical-record-id"}
 
 // BenignNetKinds are legal behaviours of an honest network/server.
 var BenignNetKinds = []string{"extra-sig", "partial-404", "extra-head-lines"}
@@ -165,7 +166,7 @@ func (w *World) applyNetFault(c *ClientInfo, f *Fault, path string, data []byte,
 		}
 		out = append([]byte(nil), old[int(f.A%uint64(len(old)-1))]...)
 		what = "replay of an earlier answer"
-	case "forge-record", "forge-record-other-id", "forge-record+leaf", "forge-record+cached-leaf", "negative-record-id", "forge-chain-wrongkey", "forge-chain-unsigned", "unsigned-head", "head-text-tamper", "craft-append":
+	case "forge-record", "forge-record-other-id", "forge-record+leaf", "forge-record+cached-leaf", "negative-record-id", "noncanonical-record-id", "forge-chain-wrongkey", "forge-chain-unsigned", "unsigned-head", "head-text-tamper", "craft-append":
 		if !isLookup {
 			return data, err
 		}
@@ -193,6 +194,14 @@ func (w *World) applyNetFault(c *ClientInfo, f *Fault, path string, data []byte,
 			// the genuine record and head, but the record number is negative (every non-positive number
 			// maps to the position of record 0)
 			out = append([]byte(ref.FormatRecordMsg(-1-int64(f.A%9), text)), rest...)
+		case "noncanonical-record-id":
+			// the genuine answer with the record number respelled: a sign, leading zeros
+			idText := strconv.FormatInt(id, 10)
+			respelled := []string{"+" + idText, "0" + idText, "000000" + idText, "-0"}[f.A%4]
+			if respelled == "-0" && id != 0 {
+				respelled = "00" + idText
+			}
+			out = append([]byte(respelled+"\n"+text+"\n"), rest...)
 		case "forge-record+cached-leaf":
 			// the attacker also controls the disk: the leaf tile that holds the record is planted in the
 			// machine's cache with the forged record's hash in place of the true one (every other hash in
